@@ -30,6 +30,25 @@ SPECS["C11"] = dict(
                 params={"quick": {"MAXLEN": 3, "VARIANTS": 2}, "thorough": {"MAXLEN": 5, "VARIANTS": 2}})],
 )
 
+DNSMSG_COMMON = {"harness/dnsmsg/zz_verif_common_test.go": "internal/dnsmsg/zz_verif_common_test.go"}
+
+SPECS["C02"] = dict(
+    level="model_checking",
+    engine="E1 enum",
+    technique="bounded exhaustive enumeration of a message grammar through the real Unpack/Pack, decoded by 3 independent decoders and compared with the abstract message",
+    claim="For every message of the grammar (all header bit/opcode/rcode combinations; all record sequences up to the bound over a 22-record "
+          "alphabet in every section assignment with 0..2 questions; all assignments of a 14-name collision alphabet to the name slots; names beyond "
+          "offset 0x4000; input with and without compression pointers) the proxy's re-encoding with and without compression decodes - by the "
+          "proxy, a reference decoder, miekg/dns and x/net dnsmessage - to the same content, the uncompressed length equals Len(), and Pack never fails.",
+    trusted="reference encoder/decoder engine/refdns (independent of internal/dnsmsg); miekg/dns v1.1.58 and x/net dnsmessage v0.22 as independent "
+            "decoders (x/net skipped for labels containing '.', which it cannot represent); the reserved Z header bit is outside the alphabet.",
+    rule="see evidence rule written by the harness",
+    assumptions=["record/name alphabets listed in harness/dnsmsg/zz_verif_c02_test.go", "Z header bit not enumerated (the proxy's header model has no such field)"],
+    parts=[dict(name="codec", pkg="internal/dnsmsg", run="TestVerifC02", engines=("choice", "report", "refdns"),
+                files=dict(DNSMSG_COMMON, **{"harness/dnsmsg/zz_verif_c02_test.go": "internal/dnsmsg/zz_verif_c02_test.go"}),
+                params={"quick": {"MAXREC": 2, "SLOTS": 3}, "thorough": {"MAXREC": 3, "SLOTS": 5}})],
+)
+
 
 # --------------------------------------------------------------------------------------------
 # Properties not (yet) claimed. Kept current: every property without a SPECS entry must be here.
